@@ -105,3 +105,27 @@ Theorem C19_never_partial_per_destination : forall ws prev sched d,
               /\ alookup N.eqb d (objs (msfs s)) = Some (concat (w_frames (m_w w))).
 Proof. exact dest_never_partial. Qed.
 Print Assumptions C19_never_partial_per_destination.
+
+(* the directory step made visible (model/FsWriteDirs.v: FileWriter::done is create_dir_all, then rename): whenever one writer is abandoned,
+   no temp file is left and the object is the previous one or - only without any fault - the complete new one; a write hit by a fault
+   (failing body, checksum mismatch) changes nothing at all, directories included; and a parent directory that was not there before exists
+   afterwards only after a success or when the request was abandoned exactly between the two steps - the known finding
+   drop-between-mkdir-and-rename, which the last example exhibits *)
+From S3V Require Import model.FsWriteDirs proofs.FsWriteDirsProofs.
+Theorem C19_abandoned_write_with_directories : forall fs body_err bad_sum dir0 prev n,
+  let o := outcome fs body_err bad_sum n dir0 prev in
+  d_tmp o = None /\
+  ((d_obj o = prev /\ (d_dir o = dir0 \/ (~ faulty fs body_err bad_sum /\ n = S (S (length fs)) /\ d_dir o = true)))
+   \/ (~ faulty fs body_err bad_sum /\ d_obj o = Some (concat fs) /\ d_dir o = true)).
+Proof. exact outcome_spec. Qed.
+Print Assumptions C19_abandoned_write_with_directories.
+Theorem C19_faulty_write_changes_nothing : forall fs body_err bad_sum dir0 prev n, faulty fs body_err bad_sum ->
+  outcome fs body_err bad_sum n dir0 prev = {| d_dir := dir0; d_obj := prev; d_tmp := None |}.
+Proof. exact faulty_write_changes_nothing. Qed.
+Print Assumptions C19_faulty_write_changes_nothing.
+Example C19_dropped_between_mkdir_and_rename_refuted :
+  outcome [[97]; [98]] None false 4 false None = {| d_dir := true; d_obj := None; d_tmp := None |}
+  /\ outcome [[97]; [98]] None false 3 false None = {| d_dir := false; d_obj := None; d_tmp := None |}
+  /\ outcome [[97]; [98]] None false 5 false None = {| d_dir := true; d_obj := Some [97; 98]; d_tmp := None |}.
+Proof. exact dropped_between_mkdir_and_rename. Qed.
+Print Assumptions C19_dropped_between_mkdir_and_rename_refuted.
